@@ -27,7 +27,7 @@ _SEMANTIC = re.compile(r"postcondition not satisfied|precondition not satisfied|
                        r"possible arithmetic underflow/overflow|assertion failed|possible division by zero|"
                        r"possible bit shift underflow/overflow|decreases not satisfied|"
                        r"recommendation not met|index out of bounds|loop invariant not satisfied|"
-                       r"invariant not satisfied (before|at end of) loop|unable to prove post-condition of closure")
+                       r"invariant not satisfied (before|at end of) loop|unable to prove post-condition of closure|requires not satisfied")
 
 
 def load_units():
@@ -126,9 +126,17 @@ def _rewrite(body, rules, counts):
         body, n = re.subn(r'\.expect\(\s*"(?:[^"\\\\]|\\\\.)*"\s*,?\s*\)', ".unwrap()", body)
         cnt("R15", n)
     if "R7" in rules:
+        # inclusive form first: (a..=b).contains(&x)  ->  (a <= x && x <= b)
+        body, n0 = re.subn(r"\(\s*([^()]+?)\s*\.\.=\s*(\w+|\([^()]+(?:\([^()]*\)[^()]*)*\))\s*\)\s*\.contains\(\s*&\s*(\w+)\s*\)",
+                           r"((\1) <= \3 && \3 <= (\2))", body)
+        cnt("R7", n0)
         body, n = re.subn(r"\(\s*([^()]+?)\s*\.\.\s*\(([^()]+(?:\([^()]*\)[^()]*)*)\)\s*\)\s*\.contains\(\s*&\s*(\w+)\s*\)",
                           r"((\1) <= \3 && \3 < (\2))", body)
         cnt("R7", n)
+    if "R8" in rules:
+        # `<path>.layers[i]` through `impl Index<u32> for LayersData` (body text checked by index_impl_check) -> the Vec field
+        body, n = re.subn(r"(?<!\.layers)\.layers\[([^\[\]]+)\]", r".layers.layers[(\1) as usize]", body)
+        cnt("R8", n)
     if "R10" in rules:
         # bounds may be arithmetic expressions over identifiers (no nested indexing / ranges / field access)
         body, n = re.subn(r"&(\w+)\[([^\[\]\.]+?)\.\.([^\[\]\.]+?)\]", r"slice_subrange(\1, \2, \3)", body)
@@ -205,6 +213,11 @@ def _splice_fn(src_text, f, counts):
     # insertion points (offset, text): loop clauses before the `{` of loop k, proof text before the `}` that closes it
     ins = [(lp[k - 1][1], "\n" + want[k].rstrip() + "\n") for k in want]
     ins += [(rsx.match_brace(mb, lp[k - 1][1]), "\n" + ends[k].rstrip() + "\n") for k in ends]
+    # `loop_begins`: proof text right after the brace that OPENS loop k's body (independent of what the body's first line is)
+    begins = f.get("loop_begins", {})
+    if begins and max(begins) > len(lp):
+        raise Undecided("lost anchor: fn %s has %d loops, begin-of-body proof for loop %d" % (f["name"], len(lp), max(begins)))
+    ins += [(lp[k - 1][1] + 1, "\n" + begins[k].rstrip() + "\n") for k in begins]
     for (off, txt) in sorted(ins, key=lambda x: -x[0]):
         body = body[:off] + txt + body[off:]
     for (anchor, text, *where) in f.get("hints", []):
@@ -340,8 +353,9 @@ def _splice_struct(src_text, s, counts):
     return s.get("attrs", "") + "pub " + hdr + "{\n" + body + "}\n"
 
 
-def build_unit(scratch, name, unit):
+def build_unit(scratch, name, unit, force_stub=None):
     counts = {}
+    force_stub = force_stub or {}
     parts = ["// GENERATED on every run by /verif/lib/verus_engine.py from the working tree – do not edit\n",
              "#![feature(allocator_api)]\n#![allow(unused_imports, dead_code, unused_variables, unused_mut, unused_parens)]\n",
              "use vstd::prelude::*;\n", "use vstd::slice::slice_subrange;\n", "use std::sync::Arc;\n", "use vstd::std_specs::iter::IteratorSpec;\n", "verus! {\n"]
@@ -361,6 +375,8 @@ def build_unit(scratch, name, unit):
             parts.append(_splice_struct(src, it, counts))
         elif it["kind"] == "fn":
             try:
+                if (it.get("key") or it["name"]) in force_stub:
+                    raise Undecided(force_stub[it.get("key") or it["name"]])
                 txt = _splice_fn(src, it, counts)
             except Undecided as e:
                 # a lost anchor INSIDE one function (rewritten body, vanished hint line, different loop structure) must
@@ -405,7 +421,35 @@ def build_unit(scratch, name, unit):
 
 
 def run_unit(scratch, name, unit, timeout=600):
-    text, counts, fn_lines = build_unit(scratch, name, unit)
+    """Runs the unit. If the Rust / Verus FRONT END rejects the text (type error, unsupported construct) and every such
+    error lies inside extracted functions, those functions are replaced by stubs carrying their contracts (their own
+    obligations become undecided) and the unit is run again, so that one edited function does not hide the others."""
+    force = {}
+    res = None
+    for _attempt in range(4):
+        res = _run_unit_once(scratch, name, unit, timeout, force)
+        js = res["json"] or {}
+        vr = js.get("verification-results", {})
+        front_end = (res["json"] is None) or vr.get("encountered-vir-error") or (not vr.get("success") and not vr.get("verified") and not vr.get("errors"))
+        if not front_end:
+            break
+        culprits = {}
+        ok = True
+        for em in re.finditer(r"^(error[^\n]*)\n\s*-->\s*[^:\n]+:(\d+):(\d+)", res["diag"], re.M):
+            ln = int(em.group(2))
+            owner = [k for k, (lo, hi) in res["fn_lines"].items() if lo <= ln <= hi]
+            if not owner:
+                ok = False
+                break
+            culprits[owner[0]] = "front-end error in the extracted text of this function: %s" % em.group(1)[:160]
+        if not ok or not culprits or all(k in force for k in culprits):
+            break
+        force.update(culprits)
+    return res
+
+
+def _run_unit_once(scratch, name, unit, timeout, force):
+    text, counts, fn_lines = build_unit(scratch, name, unit, force)
     d = os.path.join(scratch.root, "verus")
     os.makedirs(d, exist_ok=True)
     path = os.path.join(d, name + ".rs")
